@@ -196,14 +196,45 @@ Theorem C12_analysis_kernels_regions_listed :
 Proof. repeat split; try reflexivity. discriminate. Qed.
 Print Assumptions C12_analysis_kernels_regions_listed.
 
-(** Partition shape of every go statement, recognised from the source (Gen/PartShapes.v;
-    the translator refuses on an unknown shape): each site's arithmetic IS the model
-    function whose exact-cover theorem is proved above for all n and all sizes. *)
+(** Spawn arithmetic of every go statement, EVALUATED (Gen/PartShapes.v: the statements on the
+    path to each go statement are evaluated symbolically by the translator — assignments
+    substituted, `if c { x = e }` as a conditional, min / max, helper functions inlined — into
+    three expressions per site: number of spawn-loop iterations, start and end of worker #w's
+    range; ConcPartExpr.v gives them a semantics).  Nothing about how the code is written is
+    compared: variable names, helpers, `if e > T { e = T }` versus min, the spelling of a ceiling
+    division do not matter.
+    (1) every go statement is a spawn loop with ranges, a set of queue workers, or a single
+        goroutine, and its expressions could be formed;
+    (2) BOUNDED, for every site: for all values of the free variables from [grid_for] and all n
+        in [sweep_ns] the ranges tile, exactly once, the interval that ONE worker (n = 1) covers;
+    (3) UNBOUNDED, for every site the certifier accepts (clipped chunks whose size is a ceiling
+        of the length over the worker count, floor chunks whose last worker takes the remainder,
+        proportional bounds — recognised by an affine decomposition in #w, not by syntax): exact
+        cover for ALL values of the free variables and ALL n with at least one worker and a
+        non-negative length.  At HEAD the certifier accepts all 11 range sites. *)
+From Webp Require Conc.ConcPartExpr.
 From WebpGen Require PartShapes.
-Theorem C12_site_partition_shapes_modelled :
-  forallb (fun e => existsb (String.eqb (snd e)) proved_shapes) WebpGen.PartShapes.site_shapes = true.
+Module PE := Conc.ConcPartExpr.
+Theorem C12_go_statements_understood : forallb PE.kind_understood WebpGen.PartShapes.sites = true.
 Proof. vm_compute. reflexivity. Qed.
-Print Assumptions C12_site_partition_shapes_modelled.
+Print Assumptions C12_go_statements_understood.
+
+Theorem C12_site_partitions_tile_bounded :
+  forall s, In s WebpGen.PartShapes.sites -> PE.s_kind s = "ranges"%string ->
+  forall vals n, List.length vals = List.length (PE.s_vars s) ->
+  Forall (fun z => In z (PE.grid_for s)) vals -> In n PE.sweep_ns ->
+  let e := combine (PE.s_vars s) vals in
+  exact_partition (PE.site_ranges s e n) (fst (PE.domain1 s e)) (snd (PE.domain1 s e)).
+Proof. apply PE.sweep_all_sound. vm_compute. reflexivity. Qed.
+Print Assumptions C12_site_partitions_tile_bounded.
+
+Theorem C12_site_partitions_tile_all_n :
+  forall s c, In s WebpGen.PartShapes.sites -> PE.certify s = Some c ->
+  forall e n, let en := (PE.vN, n) :: e in
+  1 <= PE.eval en (PE.s_nw s) -> 0 <= PE.eval en (PE.c_nonneg c) ->
+  exact_partition (PE.site_ranges s e n) (PE.eval en (PE.c_lo c)) (PE.eval en (PE.c_hi c)).
+Proof. intros s c _ H e n. exact (PE.certify_sound s e n c H). Qed.
+Print Assumptions C12_site_partitions_tile_all_n.
 
 (** animation.DecodeFramesParallel (work queue + collection of results in arrival order,
     ConcQueue.v; [dec] = the frame decoder, arbitrary; [collect] = the current loop, which
